@@ -35,6 +35,49 @@ def model_phase(ctx):
     ctx.note("pinned_mechanism_counterexamples", found)
 
 
+# meshes of the readers' dialect lattice (Dialects.tla) used for the input-container sweep: a mixed-size
+# mesh and a uniform one are enough, the sweep is about container kinds (dtype, start index, fill value,
+# padding convention, coordinate kind) and not about geometry
+INPUT_MESHES_QUICK = [2, 5]
+INPUT_MESHES_THOROUGH = [2, 3, 5, 8]
+
+
+def reader_inputs_phase(ctx, thorough):
+    """Every in-memory source the readers' dialect lattice contains (Dialects.tla: route x dtype x start index x
+    fill value x padding x coordinate kind ...) is handed to the public constructor twice; the input object is
+    deep-fingerprinted before and after each construction and JudgeReaders.tla decides InputKept (nothing the
+    caller handed over has changed) and DecodeRepeatable (the second grid equals the first)."""
+    from checks import c01 as C01
+    from harness import x_c01 as X
+    from harness.pool import pmap
+
+    ms, cases = C01.generate(ctx, INPUT_MESHES_THOROUGH if thorough else INPUT_MESHES_QUICK, C01.ROUTES)
+    C01.mechanism_demo(ctx)
+    work = []
+    for k, c in enumerate(cases):
+        c["k"] = k
+        work.append((c, ms[c["mi"]], ctx.work, False))
+    recs = [r for r in pmap(X.run_case, work) if "skip" not in r]
+    good = [r for r in recs if "error" not in r]
+    by_id = {w[0]["id"]: w[0] for w in work}
+    failed, _ = C01.judge(ctx, good, "c19_inputs") if good else ({}, {})
+    n_in = 0
+    for r in good:
+        if r.get("kept") is not None or r.get("changed") is not None:
+            n_in += 1
+        ctx.count(1, "input:" + r["id"])
+    bad = 0
+    for rid, cl in sorted(failed.items()):
+        for clause in cl:
+            if clause in ("InputKept", "DecodeRepeatable"):
+                bad += 1
+                c = by_id[rid]
+                rec = next(r for r in good if r["id"] == rid)
+                ctx.violation("input:" + rid, clause, detail={"changed": rec.get("changed"), "kept": rec.get("kept")}, sig=dict(C01.sig_of(c, clause), phase="reader_inputs"),
+                              replay={"case": c, "mesh": ms[c["mi"]]})
+    ctx.note("reader_inputs", {"sources": len(good), "with_input_fingerprint": n_in, "raised": len(recs) - len(good), "violations": bad})
+
+
 def run(ctx):
     import time
 
@@ -42,6 +85,7 @@ def run(ctx):
     thorough = ctx.tier == "thorough"
     t0 = time.time()
     model_phase(ctx)
+    reader_inputs_phase(ctx, thorough)
     t1 = time.time()
     hs = gc.generate(ctx, ALIAS_FAMS, 3, ALL_ACTS, "all histories of three steps over the aliasing alphabet (grid 1 and its copy)", handles=(1, 2), base=(1,), workers=8, max_mut=2)
     n_all = len(hs)
@@ -79,7 +123,9 @@ def run(ctx):
         "collections, a few lazy reads, chunk} on a grid and its copy; each is replayed on a grid built by every constructor "
         "and input container kind in turn; after every step the constructor inputs are compared with their pre-construction "
         "snapshot and every handle's values with a fresh grid that underwent exactly that handle's own mutators; TLC validates "
-        "the traces. Non-trivial = distinct history containing a mutator, edit or copy."
+        "the traces. Input containers: every in-memory source of the readers' dialect lattice (Dialects.tla) is passed to the "
+        "public constructor twice and fingerprinted before and after; JudgeReaders.tla decides InputKept and DecodeRepeatable. "
+        "Non-trivial = distinct history containing a mutator, edit or copy, or distinct reader source."
     )
     ctx.assumptions += [
         "a caller edit is an in-place change of values, attributes and columns of the returned object",
@@ -88,4 +134,11 @@ def run(ctx):
 
 
 def replay(path):
+    import json
+
+    data = json.load(open(path))
+    if any("case" in (v.get("replay") or {}) for v in data["cases"][:25]):
+        from checks import c01 as C01  # a reader source: re-decode it twice and re-judge InputKept / DecodeRepeatable
+
+        return C01.replay(path)
     return gc.replay_file(path)
